@@ -85,7 +85,7 @@ def correspond(ctx, cases, cfgs, judge, tag, model=True, model_env=None, oracle_
     cmap = {c['id']: c for c in cases}
     impl = {}
     if ctx.search_mode and cases and cases[0]['kind'] in ('trie',) and 'native' not in cfgs and 'tsan' not in cfgs:
-        cfgs = list(cfgs) + ['native']          # the intrinsic arms of bit_tools.hpp
+        cfgs = list(cfgs) + ['native', 'sse42']          # the intrinsic arms of bit_tools.hpp, together and mixed
     for cfg in cfgs:
         ctx.configs_used.add(cfg)
         impl[cfg] = core.run_driver(cfg, blocks, '%s-%s' % (ctx.pid, tag))
@@ -194,6 +194,10 @@ def trie_cases(ctx, sets, make_ops, containers='svc', variants=gen.VARIANTS, bin
             v = 15 if n % 2 == 0 else 16          # > 32768 units: the second DAC level of the 15/16-bit variants
         i += 1
         cases.append(gen.trie_case('%s%d-%s' % (tag, n, desc), v, b, cont, K, make_ops(K), {'desc': desc}))
+        if desc.startswith('big-wide'):            # every variant: their block geometry differs (128- vs 256-unit L1 blocks)
+            for v2 in variants:
+                if v2 != v:
+                    cases.append(gen.trie_case('%s%d-%s-v%d' % (tag, n, desc, v2), v2, b, cont, K, make_ops(K), {'desc': desc}))
     return cases
 
 # ------------------------------------------------------------------ property runs
@@ -302,6 +306,11 @@ def j_c06(hdr, keys, ops, lines, case):
             V.append(('C06', 'get_type_id = %s for variant %s' % (l.split()[1], hdr[3])))
         if l.startswith('use ') and l != 'use ok':
             V.append(('C06', 'load/mmap of the saved file -> %s' % l))
+    for l in lines:
+        if l.startswith('saveover ') and l.split()[1].startswith('ret:'):
+            d = dict(x.split(':') for x in l.split()[1:])
+            if d.get('ret') != d.get('size') or d.get('same') != '1':
+                V.append(('C06', 'save onto an existing longer file returned %s but the file has %s bytes (equal to a fresh save: %s)' % (d.get('ret'), d.get('size'), d.get('same'))))
     if len(stats) > 1 and any(s != stats[0] for s in stats):
         V.append(('C06', 'statistics differ after load/mmap: %s vs %s' % (stats[0], next(s for s in stats if s != stats[0]))))
     return V
@@ -310,11 +319,11 @@ def run_c06(ctx):
     sets = keysets(ctx, ctx.scale(40, 250), ctx.scale(6, 60), big=True, huge=(ctx.tier == 'thorough'))
     def ops(K):
         bat = gen.battery(K, ctx.rng, ctx.scale(12, 40)) + gen.id_ops(K)[:12] + ['E']
-        o = ['STATS', 'FILE', 'TID'] + bat
-        o += ['USE load', 'STATS', 'FILE'] + bat
+        o = ['STATS', 'FILE', 'TID', 'SAVEOVER %d' % ctx.rng.choice([1, 7, 512, 5000])] + bat
+        o += ['USE load', 'STATS', 'FILE', 'SAVEOVER 100'] + bat
         for off in ([ctx.rng.choice([0, 8]), ctx.rng.choice([1, 3, 4, 7, 4095])] if ctx.tier == 'quick' else [0, 1, 3, 4, 7, 9, 4095]):
             o += ['USE mmap %d' % off, 'STATS', 'FILE'] + bat
-        o += ['USE mmapend', 'STATS', 'FILE'] + bat
+        o += ['USE mmapend', 'STATS', 'FILE', 'SAVEOVER 3'] + bat
         return o
     correspond(ctx, trie_cases(ctx, sets, ops), ['rel', 'san'], j_c06, 'main')
     run_scale_tries(ctx, lambda K: ['STATS', 'FILE', 'USE load', 'STATS', 'FILE', 'L ' + hexs(K[0]), 'USE mmap 1', 'STATS', 'FILE', 'L ' + hexs(K[-1]), 'E'], j_c06)
@@ -362,7 +371,7 @@ def run_c09(ctx):
     cases += [gen.bv_case('bvr%d-%s' % (n, d), bits, 1, 0) for n, (d, bits) in enumerate(pats[:20])]
     cases += gen.bv_builder_cases(ctx.rng, ctx.scale(40, 300))
     cases.append(gen.words_case('words0', ctx.rng, ctx.scale(150, 3000)))
-    correspond(ctx, cases, ['O3', 'native', 'san'], j_comp, 'main',
+    correspond(ctx, cases, ['O3', 'native', 'sse42', 'san'], j_comp, 'main',
                per_cfg_model_env={'native': {'XMODEL_INTR': '1'}})
     if ctx.scale_on:
         # counters beyond 2^31 / 2^32: implementation vs arithmetic (no model: a list of 2^31 booleans is out of reach)
@@ -690,6 +699,10 @@ def j_c16(hdr, keys, ops, lines, case):
             d = dict(x.split(':') for x in f[1:])
             if d.get('load') != 'ok' or d.get('size') != d.get('ret'):
                 V.append(('C16', 'save returned %s but the file has %s bytes and load -> %s' % (d.get('ret'), d.get('size'), d.get('load'))))
+        if f[0] == 'saveover' and f[1].startswith('ret:'):
+            d = dict(x.split(':') for x in f[1:])
+            if d.get('ret') != d.get('size') or d.get('same') != '1':
+                V.append(('C16', 'save onto an existing longer file returned %s but the file on disk has %s bytes' % (d.get('ret'), d.get('size'))))
         if f[0] == 'devfull' and f[1] != 'exc':
             V.append(('C16', 'save to a full device returned %s' % f[1]))
         if f[0] == 'badpath' and f[1] != 'exc':
@@ -701,7 +714,7 @@ def j_c16(hdr, keys, ops, lines, case):
 def run_c16(ctx):
     sets = [s for s in keysets(ctx, ctx.scale(10, 40), ctx.scale(1, 4)) if sum(map(len, s[1])) < 2000]
     def ops(K):
-        return ['LIMITALL', 'DEVFULL', 'BADPATH save noparent', 'BADPATH save dir', 'LIMIT 1000000'] + \
+        return ['LIMITALL', 'DEVFULL', 'BADPATH save noparent', 'BADPATH save dir', 'LIMIT 1000000', 'SAVEOVER 1', 'SAVEOVER 9000'] + \
                ['LIMITT %d' % n for n in (0, 1, 4, 12, 100, 1000, 1100, 1500, 2047, 4096)]
     def big_ops(K):      # files > 8 KiB: refusals at and around stdio buffer boundaries, lasting and transient
         offs = [0, 1023, 1024, 4095, 4096, 8191, 8192, 8193, 12000, 16384, 20000]
@@ -725,8 +738,14 @@ def run_c18(ctx):
         v = gen.VARIANTS[n % 4]; b = (n // 4) % 2
         for c in 'svc':
             cases.append(gen.trie_case('d%d%s-%s' % (n, c, d), v, b, c, K, ['FILE', 'USE load', 'FILE']))
+        # wide alphabets with many keys stress the block search of the builder differently per variant (an L1 block of
+        # trie_7 is 128 units, character codes go up to 255): build those sets with every variant
+        if len(K) >= 100 and len(set(x for k in K for x in k)) > 128:
+            for v2 in gen.VARIANTS:
+                if v2 != v:
+                    cases.append(gen.trie_case('d%ds-v%d-%s' % (n, v2, d), v2, b, 's', K, ['FILE', 'USE load', 'FILE']))
         n += 1
-    cfgs = ['O0a', 'O3', 'native', 'clang']
+    cfgs = ['O0a', 'O3', 'native', 'sse42', 'clang']
     impl, _ = correspond(ctx, cases, cfgs, lambda *a: [], 'main')
     # bytes must agree across containers and configurations
     byset = {}
